@@ -1523,8 +1523,10 @@ static bool param_lookup(size_t index, parsec_mca_param_storage_t *storage,
                 } else {
                     p = parsec_os_path( false, home, storage->stringval + 2, NULL );
                 }
-                free(storage->stringval);
-                storage->stringval = p;
+                if( NULL != p ) {  /* parsec_os_path refuses paths over MAXPATHLEN: keep the value unexpanded */
+                    free(storage->stringval);
+                    storage->stringval = p;
+                }
             }
 
             p = strstr(storage->stringval, ":~/");
